@@ -3,7 +3,10 @@
 The grid output_size -2..256 x prefixes x count classes x nrbytes classes is
 enumerated completely on the asan flavour; every buffer is an exact-size heap
 block, so a write at or beyond output_size lands in a red zone."""
-from .. import common, facts, gen, pool, rt
+import os
+import shutil
+
+from .. import build, common, facts, gen, pool, rt
 from ..pool import Death, Timeout
 
 PID = "C13"
@@ -11,9 +14,14 @@ FL = "asan"
 SIZES = list(range(-2, 257))
 
 
-def columns(seed, tier):
+# selections in which the generator code itself is compiled differently
+CONFIGS = [("bigcrypt-no-descrypt", ["bigcrypt", "sha512crypt"]), ("descrypt-only", ["descrypt"]),
+           ("gost-only", ["gost_yescrypt"]), ("scrypt-only", ["scrypt"])]
+
+
+def columns(seed, tier, methods=None):
     cols = []
-    for m in gen.METHODS + [None]:
+    for m in (methods if methods is not None else gen.METHODS + [None]):
         fm = m or "yescrypt"
         prefix = gen.TAG[m] if m else None
         mn = facts.MIN_NRBYTES[fm]
@@ -110,9 +118,9 @@ def judge_column(acc, col, rows, lines):
                     viol("token", "size=%d buffer holds %r, want %r" % (size, tok, want), i)
 
 
-def do_chunk(chunk):
+def do_chunk(chunk, exe=None, cfg=None):
     acc = common.Acc()
-    w = rt.vw(FL)
+    w = pool.Worker(exe) if exe else rt.vw(FL)
     for col in chunk:
         m, prefix, count, nr, pat = col
         rb = facts.rbytes_pattern(pat, nr, seed=count)
@@ -121,11 +129,37 @@ def do_chunk(chunk):
         lines = [rt.gensalt_line("rn", prefix, count, rb, nr, sz) for sz in [refsz] + SIZES]
         rows = rt.run_resilient(w, ["preerrno 2"], lines, max_deaths=8)
         judge_column(acc, col, rows, lines)
+        if cfg:
+            acc.count("cfg/" + cfg, len(lines) - 1)
         if len(acc.samples) < 3 and rows and isinstance(rows[0], dict):
             acc.sample({"prefix": (prefix or b"(NULL)").decode(), "count": count, "nrbytes": nr,
                         "size192": (rt.out_of(rows[0]) or b"").decode("latin1"),
                         "first_success_size": next((s for s, r in zip(SIZES, rows[1:])
                                                     if isinstance(r, dict) and r["r"] == "O"), None)})
+    if exe:
+        w.stop()
+    return acc
+
+
+def do_config(args):
+    """the grid for the enabled methods of another --enable-hashes selection (ASan build of that selection)"""
+    from . import C19
+    (name, en), seed, tier = args
+    bname, en, exe, err, _ = C19.build_config((PID + "-" + name, en, None,
+                                               "-O1 -g -fno-omit-frame-pointer -fsanitize=address,undefined "
+                                               "-fno-sanitize-recover=all"))
+    if exe is None:
+        acc = common.Acc()
+        acc.inconc("configuration %s does not build: %s" % (name, err[-300:]))
+        return acc
+    try:
+        acc = do_chunk(columns(seed, tier, en), exe, name)
+    finally:
+        shutil.rmtree(os.path.dirname(exe), ignore_errors=True)
+    # keys of another configuration are told apart
+    for v in acc.viol:
+        v["key"] = v["key"] + "@" + name
+        v["detail"] = "[--enable-hashes=%s] %s" % (",".join(en), v["detail"])
     return acc
 
 
@@ -179,6 +213,8 @@ def run(tier):
     cols = columns(run_.seed, tier)
     for acc in pool.pmap(do_chunk, pool.chunks(cols, 6)):
         run_.merge(acc)
+    for acc in pool.pmap(do_config, [(c, run_.seed, tier) for c in CONFIGS]):
+        run_.merge(acc)
     nl = 2000 if tier == "quick" else 20000
     for acc in pool.pmap(do_large, [(run_.seed * 100 + i, nl // 16) for i in range(16)]):
         run_.merge(acc)
@@ -193,6 +229,7 @@ def run(tier):
         "successes": int(a.n.get("successes", 0)),
         "failures": int(a.n.get("failures", 0)),
         "process_deaths": int(a.n.get("deaths", 0)),
+        "grid_cells_in_other_configurations": {k[4:]: int(v) for k, v in a.n.items() if k.startswith("cfg/")},
         "flavour": FL,
     }
     return run_.finish(cov, assumptions=[
